@@ -6,6 +6,7 @@ import (
 
 func init() {
 	vHarnesses["VerifH_C13_queue"] = VerifH_C13_queue
+	vHarnesses["VerifH_C13_queue_backlog"] = VerifH_C13_queue_backlog
 }
 
 // VerifH_C13_queue: the jump queue is FIFO, loses and duplicates nothing, and
@@ -31,4 +32,57 @@ func VerifH_C13_queue() {
 	for i := 0; i < n && i < len(out); i++ {
 		vAssert("C13.queue.order", out[i].GetCount() == counts[i])
 	}
+}
+
+// VerifH_C13_queue_backlog: the queue with a backlog: a travelers are pushed, the
+// consumer takes b of them and then stalls while c more are pushed (the output
+// channel fills, the reader goroutine blocks and the internal slice grows past its
+// initial capacity), then the input is closed and everything is drained. The
+// output must be the input, in order. The initial capacity (1000) and the channel
+// sizes (50) are executed scaled down (const_rewrite, chan_scale: stated in the
+// evidence) so that the backlog crosses them with a dozen travelers.
+func VerifH_C13_queue_backlog() {
+	a := 1 + vChoice("first", 8)
+	b := vChoice("taken", 4)
+	c := vChoice("later", 14)
+	if b > a {
+		b = a
+	}
+	scale := vParam("NATIVE_SCALE", 1)
+	a, b, c = a*scale, b*scale, c*scale
+	q := New()
+	var out []gdbi.Traveler
+	next := uint32(0)
+	done := make(chan bool)
+	go func() {
+		for i := 0; i < a; i++ {
+			q.GetInput() <- &gdbi.BaseTraveler{Count: next}
+			next++
+		}
+		done <- true
+		for i := 0; i < c; i++ {
+			q.GetInput() <- &gdbi.BaseTraveler{Count: next}
+			next++
+		}
+		close(q.GetInput())
+		done <- true
+	}()
+	<-done
+	for i := 0; i < b; i++ {
+		out = append(out, <-q.GetOutput())
+	}
+	// the consumer stalls until the producer is through
+	<-done
+	for t := range q.GetOutput() {
+		out = append(out, t)
+	}
+	vReach("c13.queue.backlog-drained")
+	vAssert("C13.queue.backlog-length", len(out) == a+c)
+	ok := true
+	for i := range out {
+		if out[i] == nil || out[i].GetCount() != uint32(i) {
+			ok = false
+		}
+	}
+	vAssert("C13.queue.backlog-order", ok)
 }
